@@ -52,7 +52,7 @@ def run(tier, seed):
     o.rule = ("decode: every string of up to %d symbols over {\\n, a, é (2 bytes), {} with every partition into read chunks (all cut sets when <= %d, random beyond), and real JSON-RPC "
               "message streams under random partitions down to 1-byte reads; encode: message lists; driver: the real Builder/PluginDriver in-process on duplex pipes of capacity 1..64 bytes, "
               "1-8 concurrent hook requests (numeric and string ids, UTF-8 in ids and params), request stream written in adversarial chunks (a third of the scenarios: getmanifest, init and the requests as ONE chunked stream, not waiting for the init reply), handlers released in every/random completion order, or 6-15 of them finishing in one burst, "
-              "a failing handler, interleaved notifications; and scenarios with the plugin's real log writer sharing the output (handlers emit log lines of 10-3000 bytes), replies of up to 20 kB, "
+              "a failing handler, interleaved notifications (some of whose handlers fail); and scenarios with the plugin's real log writer sharing the output (handlers emit log lines of 10-3000 bytes), replies of up to 20 kB, "
               "and a node that stops reading the plugin's output while further requests arrive (busy writer, back-pressure), one process per scenario. Non-trivial: at least one complete frame (decode) / at least two requests (driver); distinct = distinct chunk list or scenario") % (6 if T else 5, 64 if T else 16)
     o.assumptions = ["serde_json never emits a raw newline; FramedWrite::send under the output mutex writes message and separator together; tokio's scheduling of handler tasks: exercised, not proved",
                      "log notifications: the real tracing layer and writer task of logging.rs on the in-process pipe; the real stdout is covered by the e2e engine only"]
@@ -88,6 +88,8 @@ def run(tier, seed):
                 if r.chance(1, 7): p["fail"] = 1
                 reqs.append({"id": rid, "method": "htlc_accepted", "params": p})
                 if r.chance(1, 3): reqs.append({"method": "block_added", "params": {"block_added": {"height": i}}})
+                # a notification whose handler fails (a payload the handler cannot use) between the requests
+                if r.chance(1, 5): reqs.append({"method": "block_added", "params": {"block": {"height": i}, "fail": 1}})
             order = list(range(n))
             # a random completion order, sometimes only a prefix is controlled
             for i in range(n - 1, 0, -1):
